@@ -124,10 +124,16 @@ type c14Doc struct {
 	Env      string // none | domain | group
 	Malform  string // none | bad-regex | missing-from | missing-to | empty-service
 	Service2 bool
+	Second   string // "" | after | before: a second service of the SAME cluster that states no options at all
 }
+
+const c14SecondService = "- service: second\n  default:\n    from: second.{{cluster}}.sso.test\n    to: second-backend.{{root}}:7070\n"
 
 func (d c14Doc) yaml() string {
 	var sb strings.Builder
+	if d.Second == "before" {
+		sb.WriteString(c14SecondService)
+	}
 	svc := "my service"
 	if d.Malform == "empty-service" {
 		svc = "''"
@@ -181,6 +187,9 @@ func (d c14Doc) yaml() string {
 		block("default", "def", d.D, true)
 		block("prod", "clu", d.C, false)
 	}
+	if d.Second == "after" {
+		sb.WriteString(c14SecondService)
+	}
 	if d.Service2 {
 		sb.WriteString("- service: other\n  staging:\n    from: other.sso.test\n    to: other.internal\n")
 	}
@@ -232,7 +241,7 @@ func c14Run(c *fw.Ctx) {
 		viol := func(key, what string) {
 			c.Res.Violate(fw.Violation{Property: "C14", Key: "C14/" + key, What: what, Scenario: scenario, Choices: x.Choices(), Detail: desc})
 		}
-		sig := fmt.Sprintf("%s|D=%d|C=%d|%s|%s|%s|%s|err=%v", d.Blocks, d.D, d.C, d.Extra, d.Type, d.Env, d.Malform, err != nil)
+		sig := fmt.Sprintf("%s|D=%d|C=%d|%s|%s|%s|%s|%s|err=%v", d.Blocks, d.D, d.C, d.Extra, d.Type, d.Env, d.Malform, d.Second, err != nil)
 		c.Res.Outcome(sig)
 		if c.Res.Execs%5000 == 77 {
 			c.Res.Sample(desc)
@@ -281,6 +290,9 @@ func c14Run(c *fw.Ctx) {
 		if d.Extra != "none" {
 			wantN = 2
 		}
+		if d.Second != "" {
+			wantN++
+		}
 		if len(ups) != wantN {
 			viol("upstream-count", fmt.Sprintf("expected %d upstream(s) for cluster prod, got %v", wantN, names))
 			return
@@ -290,6 +302,22 @@ func c14Run(c *fw.Ctx) {
 			scope := "cluster"
 			if isExtra {
 				scope = "extra-route"
+			}
+			if strings.HasPrefix(u.RouteConfig.From, "second.") {
+				// the neighbouring service states nothing: it must resolve to the deployment defaults only,
+				// whatever the other service of the document states
+				if u.Service != "second" {
+					viol("service-name", fmt.Sprintf("upstream has service name %q", u.Service))
+				}
+				if len(u.AllowedGroups)+len(u.AllowedEmailDomains)+len(u.AllowedEmailAddresses) == 0 {
+					viol("open-to-everyone/second-service", "an upstream without any allow rule was loaded")
+				}
+				for _, o := range c14Opts {
+					if got, want := c14Got(u, o), envDefault(d, o); !c14Equal(got, want) {
+						viol("second-service/leaked/"+o, fmt.Sprintf("service `second` states no options; %s should be the deployment default %s but resolved to %s", o, want, got))
+					}
+				}
+				continue
 			}
 			if u.Service != "my_service" {
 				viol("service-name", fmt.Sprintf("upstream has service name %q", u.Service))
@@ -345,6 +373,20 @@ func c14Run(c *fw.Ctx) {
 			check(x, d, "merge")
 		}
 	})
+	// sweep 1b: a neighbouring service of the same cluster that states nothing
+	seconds := []string{"after", "before"}
+	shapes2 := [][2]int{{0, 0}, {63, 0}, {0, 63}, {1 | 8, 16}, {2 | 4, 1 | 32}, {8 | 16 | 32, 0}}
+	drive(c, "two-services", -1, func(x *explore.Exec, owned bool) {
+		d := c14Doc{Malform: "none", Blocks: "both"}
+		sh := shapes2[x.Choose("option-shape", len(shapes2))]
+		d.D, d.C = sh[0], sh[1]
+		d.Extra = []string{"none", "bare", "allowed_groups", "skip_auth_regex"}[x.Choose("extra-route", 4)]
+		d.Env = []string{"domain", "group"}[x.Choose("env-defaults", 2)]
+		d.Second = seconds[x.Choose("second-service", 2)]
+		if owned {
+			check(x, d, "two-services")
+		}
+	})
 	// sweep 2: fail-closed
 	types := []string{"", "simple", "rewrite", "bogus"}
 	malforms := []string{"none", "bad-regex", "missing-from", "missing-to", "empty-service", "bad-rewrite-regexp"}
@@ -369,10 +411,10 @@ func init() {
 		ID:    "C14",
 		Level: "exploration",
 		Rule: "every document of a grammar, loaded through proxy.SetUpstreamConfigs for cluster `prod` with template variables in from/to/options: (merge) blocks {default only, cluster only, both} x options stated by the default block (all 64 subsets of groups, domains, addresses, skip_auth_regex, timeout, header_overrides) x options stated by the cluster block (64 subsets) x extra route {none, bare, stating groups / skip list / timeout} x deployment defaults {none, domain, group}; " +
-			"(fail-closed) route type {omitted, simple, rewrite, unknown} x malformation {none, bad skip regex, missing from, missing to, empty service, unbalanced rewrite regexp} x defaults x option shapes x extra route x a second service configured for another cluster only. " +
+			"(two-services) a second service of the same cluster that states no options, before or after the first, must resolve to the deployment defaults only; (fail-closed) route type {omitted, simple, rewrite, unknown} x malformation {none, bad skip regex, missing from, missing to, empty service, unbalanced rewrite regexp} x defaults x option shapes x extra route x a second service configured for another cluster only. " +
 			"Oracle: an error is always acceptable; otherwise every upstream has its service name, a resolved route, substituted templates, as many compiled skip patterns as listed, at least one allow rule, and every option equals the field-by-field reference merge (cluster block over default block over deployment default; extra route over its parent); " +
 			"distinct_nontrivial = distinct (blocks, subsets, extra, type, defaults, malformation, accepted?) documents",
-		Assumptions:    []string{"one service per document (plus an optional second service configured for another cluster only); option values are distinguishable per block"},
+		Assumptions:    []string{"one or two services per document (plus an optional service configured for another cluster only); option values are distinguishable per block"},
 		QuickBudget:    4 * time.Minute,
 		ThoroughBudget: 20 * time.Minute,
 		Run:            c14Run,
